@@ -238,10 +238,10 @@ def is_available(rep, idx):
         ok_inner = bool(inner) and all(isinstance(s, ast.Assign) and isinstance(s.value, ast.Constant) and s.value.value is True for s in inner)
         rep.check(ok_inner, "C18.4", site, "inside the loops the flag is only ever set to True (a conflict found for one name is never forgotten)",
                   f"assignments in loops: {[ast.unparse(s) for s in inner]}")
-    prefix_idiom(rep, fi, flag)
+    prefix_idiom(rep, fi, flag, idx)
 
 
-def prefix_idiom(rep, fi, flag):
+def prefix_idiom(rep, fi, flag, idx=None):
     site = fi.site
     # innermost loop: enumerate over one of the two names
     loops = [n for n in ast.walk(fi.node) if isinstance(n, ast.For)]
@@ -253,6 +253,28 @@ def prefix_idiom(rep, fi, flag):
                 isinstance(n.left, ast.Subscript) and isinstance(n.comparators[0], ast.Subscript):
             slice_form = n
     if len(inner) != 1:
+        # idiom (iii): all(a[i] == b[i] for i in range(min(len(a), len(b))))  -- possibly in a single-return helper (inlined)
+        from .common import get_fn
+        c = get_fn(idx, fi) if idx is not None else None
+        if c is not None:
+            for cond, gen, ln in c.t.conds:
+                cn = c.norm(cond)
+                for x in ir.walk(cn):
+                    if x[0] == 'call' and x[1] == ('name', 'all') and len(x[2]) == 1 and x[2][0][0] == 'gen':
+                        gexp = x[2][0]
+                        if len(gexp[3]) == 1:
+                            tgt, it, ifs = gexp[3][0]
+                            elt = gexp[2]
+                            if it[0] == 'call' and it[1] == ('name', 'range') and len(it[2]) == 2 and it[2][0] == ('const', 0) and not ifs:
+                                hi = it[2][1]
+                                if hi[0] == 'call' and hi[1] == ('name', 'min') and len(hi[2]) == 2 and \
+                                        all(a[0] == 'call' and a[1] == ('name', 'len') for a in hi[2]):
+                                    A_, B_ = hi[2][0][2][0], hi[2][1][2][0]
+                                    want = ir.norm(('cmp', '==', ('sub', A_, tgt), ('sub', B_, tgt)))
+                                    if elt == want:
+                                        rep.ok("C18.5", site, "prefix test is all(a[i] == b[i] for i in range(min(len(a), len(b))))", ir.show(x)[:120])
+                                        rep.ok("C18.5", site, "comparison length is the shorter name", ir.show(hi), nontrivial=False)
+                                        return
         if slice_form is not None:
             a, b = slice_form.left, slice_form.comparators[0]
             ka = ir.norm(ir.from_ast(a.slice, {}))
